@@ -7,6 +7,7 @@
 (*     the find/distort dispatch of sky2image against "inverts the transform the    *)
 (*     caller named" (S2IDispatchRefines).                                          *)
 (*  B. (NextS) sky anchors: reference pixel -> CRVAL, gnomonic anchors.             *)
+(*  D. (NextR) input representations: call x dtype x container x layout x header.   *)
 (*  C. (InitH / NextH) the call-history machine: every call sequence up to MaxHist  *)
 (*     over HistCalls on one object (implementation-shaped object state: lazy       *)
 (*     inverse, root-finder scratch) - each result must equal the fresh object's.   *)
@@ -23,7 +24,11 @@ CONSTANTS Projs,        \* subset of {"TAN", "TPV", "TANPV", "SIP"}
           SkyCDIds, SkyLons, SkyLats,   \* anchors: CD ids (signed permutations), CRVAL lattice
           RefCDIds, RefLonIds, RefLatIds,   \* reference-pixel check: CD ids, ids of RefLon / RefLat
           HistCalls, MaxHist, ShortKinds,    \* sequences of length MaxHist (MaxHist - 1 for the header kinds in ShortKinds)
-          HistVariant,                       \* "pinned" | "warm_start" | "stale_inverse"
+          HistVariant,                       \* "pinned" | "warm_start" | "stale_inverse" | "identity_cache"
+          HistArgModes,                      \* subset of {"scalar", "buffer"}: how the caller hands over the arguments
+          PolyVariant,                       \* "pinned" | "zip_pair"  (self-test: evaluating the A/B pair over the common shape)
+          OrdVariety,                        \* TRUE: SIP A/B (AP/BP) orders and the PV keyword sets of the two axes vary independently
+          ReprCalls, ReprKinds,              \* input representations: calls and header kinds
           DoExport
 
 VARIABLES phase, c, hk, obj, calls, results
@@ -71,11 +76,27 @@ NoObj  == [inv |-> "absent", guess |-> "none"]
 \* ---- A. classes ----------------------------------------------------------------------
 InitC == phase = "start" /\ c = NoCase /\ hk = "none" /\ obj = NoObj /\ calls = <<>> /\ results = <<>>
 
+\* the representation part of a header: declared SIP orders (A, B independent; AP, BP independent and
+\* independent of A, B) and the PV keyword sets of the two axes.  The inverse orders are tied to the forward
+\* ones by three patterns (a covering, not the product): equal to the larger forward order, crossed and
+\* raised (AP = B + 1, BP = A), or absent.
+SipOrders == 2..SipMaxOrder
+InvPatterns == {"absent", "equal", "crossed"}
+InvOrd(pat, ao, bo) == CASE pat = "absent" -> <<0, 0>>
+                         [] pat = "equal" -> <<VMax2(ao, bo), VMax2(ao, bo)>>
+                         [] pat = "crossed" -> <<bo + 1, ao>>
+PVSetPairs == {<<"all", "all">>, <<"all", "deg1">>, <<"one", "all">>, <<"deg2", "one">>}
 ChooseShape ==
     /\ phase = "start"
-    /\ \E pr \in Projs : \E cd \in CDIds : \E cp \in CrpixIds : \E ik \in BOOLEAN :
-          /\ (pr # "SIP" => ik)
-          /\ c' = [kind |-> "shape", h |-> [proj |-> pr, crpix |-> CrpixOf(cp), cd |-> CDMat(cd), co |-> <<>>, invkeys |-> ik]]
+    /\ \E pr \in Projs : \E cd \in CDIds : \E cp \in CrpixIds :
+          \E ao \in SipOrders : \E bo \in SipOrders : \E pat \in InvPatterns : \E ps \in PVSetPairs :
+          /\ (pr # "SIP" => ao = 2 /\ bo = 2 /\ pat = "equal")
+          /\ (~IsPV([proj |-> pr]) => ps = <<"all", "all">>)
+          /\ (~OrdVariety => ao = SipMaxOrder /\ bo = SipMaxOrder /\ pat # "crossed" /\ ps = <<"all", "all">>)
+          /\ c' = [kind |-> "shape",
+                   h |-> [proj |-> pr, crpix |-> CrpixOf(cp), cd |-> CDMat(cd), co |-> <<>>, invkeys |-> pat # "absent",
+                          ord |-> IF pr = "SIP" THEN <<ao, bo>> ELSE <<0, 0>>,
+                          iord |-> IF pr = "SIP" THEN InvOrd(pat, ao, bo) ELSE <<0, 0>>, pvsets |-> ps]]
     /\ phase' = "shape" /\ UNCHANGED <<hk, obj, calls, results>>
 
 \* the optional inverse keywords are irrelevant to the forward chain: the variant without them is
@@ -85,16 +106,20 @@ ChooseCoefs ==
     /\ LET pr == c.h.proj  S == SlotsOf(pr) IN
        \/ pr # "SIP" /\ c' = [c EXCEPT !.kind = "header"]        \* the identity set alone
        \/ MaxExtra >= 1 /\ \E s \in S : \E m \in Mults :
-             c' = [kind |-> "header", h |-> [c.h EXCEPT !.co = <<Coef(pr, s, m)>>]]
+             /\ c' = [kind |-> "header", h |-> [c.h EXCEPT !.co = <<Coef(pr, s, m)>>]]
+             /\ OrdersCover(c'.h)                 \* a coefficient only where the declared order of its axis admits it
        \/ MaxExtra >= 2 /\ c.h.invkeys /\ \E s1, s2 \in S : \E m1, m2 \in Mults :
              /\ SlotKey(s1) < SlotKey(s2)
              /\ c' = [kind |-> "header", h |-> [c.h EXCEPT !.co = <<Coef(pr, s1, m1), Coef(pr, s2, m2)>>]]
+             /\ OrdersCover(c'.h)
     /\ phase' = "header" /\ UNCHANGED <<hk, obj, calls, results>>
 
 ChoosePix ==
     /\ phase = "header"
     /\ \E pk \in PixIds : \E ds \in BOOLEAN :
-          /\ (~ds => Len(c.h.co) <= 1)           \* distort=False ignores the coefficients
+          \* distort=False ignores the coefficients: one coefficient at most, PV headers with the identity set only,
+          \* SIP headers with equal declared orders only
+          /\ (~ds => Len(c.h.co) <= 1 /\ (IsPV(c.h) => c.h.co = <<>>) /\ c.h.ord[1] = c.h.ord[2])
           /\ LET off == PixOff(pk)
                  pix == <<RAdd(off[1], RInt(c.h.crpix[1])), RAdd(off[2], RInt(c.h.crpix[2]))>>
              IN c' = [kind |-> "class", h |-> c.h, pix |-> pix, distort |-> ds,
@@ -131,10 +156,12 @@ ScampMap(ax, j) ==
            [] j = 6 -> <<2, 0>> [] j = 7 -> <<0, 3>> [] j = 8 -> <<1, 2>> [] j = 9 -> <<2, 1>> [] j = 10 -> <<3, 0>>
 ScampKeys == <<0, 1, 2, 4, 5, 6, 7, 8, 9, 10>>          \* range(11) without _scamp_skip = [3]
 \* the harness writes complete PV sets: every key present, PVi_1 = 1 and the others 0 unless chosen
+\* ExtractPVCoeffs: a 4x4 matrix per axis, zero where the keyword is absent
+PVKeyPresent(h, ax, j) == j = 1 \/ j \in PVSetKeys(h.pvsets[ax]) \/ HasCoef(h, ax, j, 0, 0)
 MechPVPoly(h, ax, x, y) ==
     RSum([n \in 1..Len(ScampKeys) |->
             LET j == ScampKeys[n]  ik == ScampMap(ax, j)
-                a == CoefOr(h, ax, j, 0, 0, IF j = 1 THEN WOne ELSE WZero)
+                a == IF PVKeyPresent(h, ax, j) THEN CoefOr(h, ax, j, 0, 0, IF j = 1 THEN WOne ELSE WZero) ELSE WZero
             IN IF a = WZero THEN WZero ELSE RMul(a, RMul(WPow(x, ik[1]), WPow(y, ik[2])))])
 \* ExtractDistortionModel: the model is present iff a key of the FIRST polynomial was found
 MechName(h) ==
@@ -142,9 +169,19 @@ MechName(h) ==
     ELSE IF IsPV(h) THEN "scamp"
     ELSE IF Repaired THEN (IF h.co # <<>> THEN "sip" ELSE "none")
     ELSE IF \E k \in DOMAIN h.co : h.co[k].ax = 1 THEN "sip" ELSE "none"
+\* ExtractSIPCoeffs: an (order+1) x (order+1) matrix per axis, filled from the keys <prefix>_<p>_<q>, p, q <= order;
+\* Apply2DPolynomial walks the whole matrix of ITS axis.  Variant "zip_pair": the two polynomials evaluated in one
+\* pass over the shape the two matrices have in common.
+MechSIPUses(h, k) ==
+    LET o == h.ord[h.co[k].ax]  m == VMin2(h.ord[1], h.ord[2]) IN
+    /\ h.co[k].p <= o /\ h.co[k].q <= o
+    /\ (PolyVariant = "zip_pair" => h.co[k].p <= m /\ h.co[k].q <= m)
+MechSIPPoly(h, ax, x, y) ==
+    RSum([k \in DOMAIN h.co |->
+            IF h.co[k].ax = ax /\ MechSIPUses(h, k) THEN RMul(h.co[k].val, RMul(WPow(x, h.co[k].p), WPow(y, h.co[k].q))) ELSE WZero])
 MechDistort(h, x, y) ==
     IF MechName(h) = "scamp" THEN <<MechPVPoly(h, 1, x, y), MechPVPoly(h, 2, x, y)>>     \* xp = 0*x + poly
-    ELSE <<RAdd(x, SIPPoly(h, 1, x, y)), RAdd(y, SIPPoly(h, 2, x, y))>>                    \* xp = x*1.0 + poly
+    ELSE <<RAdd(x, MechSIPPoly(h, 1, x, y)), RAdd(y, MechSIPPoly(h, 2, x, y))>>            \* xp = x*1.0 + poly
 \* __init__ -> ExtractSIPCoeffs(prefix "ap"): _dict_get(wcs, "ap_order") raises without the key; only reached
 \* when an A coefficient was found
 MechConstructs(h) == h.proj # "SIP" \/ h.invkeys \/ Repaired \/ ~(\E k \in DOMAIN h.co : h.co[k].ax = 1)
@@ -201,41 +238,71 @@ AnchorSound == phase = "case" /\ c.kind = "anchor" =>
 \* object state of wcsutil.WCS that outlives a call:
 \*   inv   : "absent" | "fitted"   (distort['ap'], distort['bp'] + _inverse_computed)
 \*   guess : what the root finder's xyguess / lonlat_answer buffers hold
+\*   memo  : (variant "identity_cache" only) the last call, the identity of its argument object and its result
+\* The arguments of step n are the values of position n.  The caller hands them over either as fresh python
+\* scalars ("scalar") or in ONE pair of arrays that it overwrites in place before every call ("buffer": the
+\* identity of the argument object never changes, its contents do).
 \* results are records [op, a, b] naming the computation that produced the value
 Res(op, a, b) == [op |-> op, a |-> a, b |-> b]
 Distorted(k) == k # "TAN"
-MechCall(k, st, call) ==
-    LET tanInv == Res("tan_inverse", "s", "-")
-        root   == LET g == IF HistVariant = "warm_start" /\ st.guess # "none" THEN st.guess ELSE "tan_inverse(s)"
-                  IN [st |-> [st EXCEPT !.guess = "root(s)"], res |-> Res("root", "s", g)]
+NoArg == <<"-", 0>>
+NoMemo == [call |-> "none", id |-> "none", res |-> Res("none", NoArg, "-")]
+MechCall(k, st, call, pos, mode) ==
+    LET s      == <<"s", pos>>
+        p      == <<"p", pos>>
+        argid  == IF mode = "buffer" THEN "caller_buffer" ELSE "fresh"
+        tanInv == Res("tan_inverse", s, "-")
+        root   == LET g == IF HistVariant = "warm_start" /\ st.guess[1] # "none" THEN st.guess ELSE <<"tan_inverse", s>>
+                  IN [st |-> [st EXCEPT !.guess = <<"root", s>>], res |-> Res("root", s, g)]
         poly   == LET used == IF HistVariant = "stale_inverse" THEN st.inv ELSE "fitted"
-                  IN [st |-> [st EXCEPT !.inv = "fitted"], res |-> Res("inverse_poly", "s", used)]
-    IN CASE call = "i2s_d"  -> [st |-> st, res |-> Res("forward", "p", IF Distorted(k) THEN "distorted" ELSE "tan")]
-         [] call = "i2s_n"  -> [st |-> st, res |-> IF k = "SIP" /\ ~Repaired THEN Res("UnboundLocalError", "-", "-")
-                                                    ELSE Res("forward", "p", "tan")]
-         [] call = "jac"    -> [st |-> st, res |-> Res("jacobian", "p", IF Distorted(k) THEN "distorted" ELSE "tan")]
-         [] call = "s2i_dr" -> IF Distorted(k) THEN root ELSE [st |-> st, res |-> tanInv]
-         [] call = "s2i_nr" -> IF Distorted(k) /\ ~Repaired THEN root ELSE [st |-> st, res |-> tanInv]
-         [] call = "s2i_dp" -> IF Distorted(k) THEN poly ELSE [st |-> st, res |-> tanInv]
-         [] call = "s2i_np" -> [st |-> st, res |-> tanInv]
+                  IN [st |-> [st EXCEPT !.inv = "fitted"], res |-> Res("inverse_poly", s, used)]
+        plain  == CASE call = "i2s_d"  -> [st |-> st, res |-> Res("forward", p, IF Distorted(k) THEN "distorted" ELSE "tan")]
+                    [] call = "i2s_n"  -> [st |-> st, res |-> IF k = "SIP" /\ ~Repaired THEN Res("UnboundLocalError", NoArg, "-")
+                                                               ELSE Res("forward", p, "tan")]
+                    [] call = "jac"    -> [st |-> st, res |-> Res("jacobian", p, IF Distorted(k) THEN "distorted" ELSE "tan")]
+                    [] call = "s2i_dr" -> IF Distorted(k) THEN root ELSE [st |-> st, res |-> tanInv]
+                    [] call = "s2i_nr" -> IF Distorted(k) /\ ~Repaired THEN root ELSE [st |-> st, res |-> tanInv]
+                    [] call = "s2i_dp" -> IF Distorted(k) THEN poly ELSE [st |-> st, res |-> tanInv]
+                    [] call = "s2i_np" -> [st |-> st, res |-> tanInv]
+    IN IF HistVariant = "identity_cache" /\ argid # "fresh" /\ st.memo.call = call /\ st.memo.id = argid
+       THEN [st |-> st, res |-> st.memo.res]                           \* "same object as last time": the stale result
+       ELSE IF HistVariant = "identity_cache"
+            THEN [st |-> [plain.st EXCEPT !.memo = [call |-> call, id |-> argid, res |-> plain.res]], res |-> plain.res]
+            ELSE plain
 
-InitH == phase = "hist" /\ c = NoCase /\ hk = "none" /\ obj = NoObj /\ calls = <<>> /\ results = <<>>
-ChooseKind == hk = "none" /\ \E k \in {"TAN", "TPV", "SIP"} : hk' = k /\ UNCHANGED <<phase, c, obj, calls, results>>
-HistLen(k) == IF k \in ShortKinds THEN MaxHist - 1 ELSE MaxHist
+HNoObj == [inv |-> "absent", guess |-> <<"none", <<"s", 0>>>>, memo |-> NoMemo]
+InitH == phase = "hist" /\ c = NoCase /\ hk = "none" /\ obj = HNoObj /\ calls = <<>> /\ results = <<>>
+ChooseKind == hk = "none" /\ \E k \in {"TAN", "TPV", "SIP"} : \E m \in HistArgModes :
+                 hk' = k /\ c' = [kind |-> "argmode", mode |-> m] /\ UNCHANGED <<phase, obj, calls, results>>
+\* the buffer mode is explored one call shorter (it multiplies the sequences by two)
+HistLen(k) == (IF k \in ShortKinds THEN MaxHist - 1 ELSE MaxHist) - (IF c.kind = "argmode" /\ c.mode = "buffer" THEN 1 ELSE 0)
 Call(cl) ==
     /\ hk # "none" /\ Len(calls) < HistLen(hk)
-    /\ LET r == MechCall(hk, obj, cl) IN
+    /\ LET r == MechCall(hk, obj, cl, Len(calls) + 1, c.mode) IN
           /\ obj' = r.st
           /\ results' = Append(results, r.res)
     /\ calls' = Append(calls, cl)
     /\ UNCHANGED <<phase, c, hk>>
 NextH == ChooseKind \/ \E cl \in HistCalls : Call(cl)
 
-\* the property: every result is what a fresh object returns for that call
-HistoryIndependent == \A k \in DOMAIN results : results[k] = MechCall(hk, NoObj, calls[k]).res
+\* the property: every result is what a fresh object returns for that call with the arguments of its position
+HistoryIndependent == \A k \in DOMAIN results : results[k] = MechCall(hk, HNoObj, calls[k], k, c.mode).res
+
+\* ---- D. input representations ------------------------------------------------------------------
+\* every call x element type x container x layout the well-formedness rule of Wcs.tla admits x header kind
+ChooseRepr ==
+    /\ phase = "start"
+    /\ \E cl \in ReprCalls : \E dt \in ReprDtypes : \E ct \in ReprContainers : \E ly \in ReprLayouts : \E k \in ReprKinds :
+          LET r == [kind |-> "repr", call |-> cl, dtype |-> dt, container |-> ct, layout |-> ly, hk |-> k] IN
+          /\ ReprWellFormed(r)
+          /\ (ly = "swapped" => dt \notin {"pyfloat", "pyint"})
+          /\ c' = r
+    /\ phase' = "case" /\ UNCHANGED <<hk, obj, calls, results>>
+NextR == ChooseRepr
+ReprSound == phase = "case" /\ c.kind = "repr" => ReprWellFormed(c)
 
 \* ---- export ----------------------------------------------------------------------------------
 Export == DoExport =>
     /\ (phase = "case" => PrintT(<<"CASE", ToJson(c)>>))
-    /\ (phase = "hist" /\ hk # "none" /\ Len(calls) = HistLen(hk) => PrintT(<<"HIST", ToJson([hk |-> hk, calls |-> calls])>>))
+    /\ (phase = "hist" /\ hk # "none" /\ Len(calls) = HistLen(hk) => PrintT(<<"HIST", ToJson([hk |-> hk, mode |-> c.mode, calls |-> calls])>>))
 =============================================================================
